@@ -2,8 +2,9 @@
 
 from __future__ import annotations
 
-from ._helpers import is_internal
+from ._helpers import escape_string_literal, is_internal
 
 __all__ = [
+    "escape_string_literal",
     "is_internal",
 ]
